@@ -518,6 +518,10 @@ class _ReachingDefs(DefaultVisitor):
 
     def _visit_assert(self, stmt: AssertStmt, ctx: _DefCtx):
         self._visit_expr(stmt.test, ctx)
+        if stmt.msg is not None:
+            # the message is an expression of the program too: a comprehension
+            # in it binds targets that its element reads
+            self._visit_expr(stmt.msg, ctx)
         return ctx
 
     def _visit_effect(self, stmt: EffectStmt, ctx: _DefCtx):
